@@ -65,12 +65,13 @@ Lemma grow_other w x : forall cs qs,
   live (grow w x cs qs) = live w /\ fresh (grow w x cs qs) = fresh w /\
   cleared (grow w x cs qs) = cleared w /\ frames (grow w x cs qs) = frames w /\
   npub (grow w x cs qs) = npub w /\ dead (grow w x cs qs) = dead w /\
-  alive (grow w x cs qs) = alive w /\ stopped (grow w x cs qs) = stopped w.
+  alive (grow w x cs qs) = alive w /\ stopped (grow w x cs qs) = stopped w /\
+  pr (grow w x cs qs) = pr w /\ pp (grow w x cs qs) = pp w.
 Proof.
   intros cs. revert w. induction cs as [|c cr IH]; intros w [|q qr]; cbn [grow]; try tauto.
   destruct (IH (set_queue w c (queue_of w c ++ repeat_ev x (q - qlen w c))) qr)
-    as (A & B & C & D & E & F & G & H).
-  rewrite A, B, C, D, E, F, G, H. cbn. tauto.
+    as (A & B & C & D & E & F & G & H & I & J).
+  rewrite A, B, C, D, E, F, G, H, I, J. cbn. tauto.
 Qed.
 
 Arguments grow : simpl never.
@@ -88,6 +89,7 @@ Proof.
   - destruct (aget p (frames w)); reflexivity.
   - destruct (qlen w c <? QCAP); reflexivity.
   - apply grow_other.
+  - apply grow_other.
 Qed.
 
 Lemma vstep_fresh w e :
@@ -96,6 +98,7 @@ Proof.
   destruct e; cbn; try reflexivity.
   - destruct (aget p (frames w)); reflexivity.
   - destruct (qlen w c <? QCAP); reflexivity.
+  - apply grow_other.
   - apply grow_other.
 Qed.
 
@@ -106,6 +109,7 @@ Proof.
   - destruct (aget p (frames w)); reflexivity.
   - destruct (qlen w c <? QCAP); reflexivity.
   - apply grow_other.
+  - apply grow_other.
 Qed.
 
 Lemma vstep_npub w e :
@@ -114,6 +118,7 @@ Proof.
   destruct e; cbn; try reflexivity.
   - destruct (aget p (frames w)); reflexivity.
   - destruct (qlen w c <? QCAP); reflexivity.
+  - apply grow_other.
   - apply grow_other.
 Qed.
 
@@ -134,6 +139,7 @@ Proof.
   - destruct (aget p (frames w)); reflexivity.
   - destruct (qlen w c <? QCAP); reflexivity.
   - apply grow_other.
+  - apply grow_other.
 Qed.
 
 Lemma vstep_dead w e :
@@ -142,6 +148,7 @@ Proof.
   destruct e; cbn; try reflexivity.
   - destruct (aget p (frames w)); reflexivity.
   - destruct (qlen w c <? QCAP); reflexivity.
+  - apply grow_other.
   - apply grow_other.
 Qed.
 
@@ -157,6 +164,7 @@ Proof.
   - destruct (aget p (frames w)); reflexivity.
   - destruct (qlen w c <? QCAP); reflexivity.
   - apply grow_other.
+  - apply grow_other.
 Qed.
 
 Lemma vstep_stopped w e :
@@ -165,6 +173,7 @@ Proof.
   destruct e; cbn; try reflexivity.
   - destruct (aget p (frames w)); reflexivity.
   - destruct (qlen w c <? QCAP); reflexivity.
+  - apply grow_other.
   - apply grow_other.
 Qed.
 
@@ -743,6 +752,13 @@ Proof.
     + destruct (pair_mem c n (greg s)); rewrite Z.eqb_refl; [apply orb_true_r | reflexivity].
 Qed.
 
+Lemma pgpub_ok_model w n k : forall cs, pgpub_ok w n k cs (map (pgpub_len w n k) cs) = true.
+Proof.
+  induction cs as [|c cr IH]; cbn [pgpub_ok map]; [reflexivity|]. rewrite IH, andb_true_r.
+  unfold pgpub_len. destruct (held w c n); destruct (pair_mem c n (pr w));
+    rewrite ?Z.eqb_refl, ?orb_true_r; reflexivity.
+Qed.
+
 Lemma do_gpub_prog n args k : Prog (do_gpub n args k).
 Proof.
   intros s G. unfold do_gpub.
@@ -750,9 +766,19 @@ Proof.
                ok_ev (vw s) (VGPub n args (clampk k) (map (gpub_len s n (clampk k)) local_centres)) = true).
   { intro D. unfold ok_ev. destruct G as [G LF]. rewrite D, LF. cbn [negb andb].
     rewrite gpub_ok_model by exact G. rewrite andb_true_r. unfold clampk. lia. }
+  assert (G1 : Good (emit (VGPub n args (clampk k) (map (gpub_len s n (clampk k)) local_centres)) s))
+    by (apply emit_good; [exact G | exact OK | rewrite vstep_live; reflexivity | exact I]).
+  assert (X1 : Ext (vw s) (vw (emit (VGPub n args (clampk k) (map (gpub_len s n (clampk k)) local_centres)) s)))
+    by (apply emit_ext; [exact OK | exact I]).
+  set (s1 := emit (VGPub n args (clampk k) (map (gpub_len s n (clampk k)) local_centres)) s) in *.
+  destruct (probing (vw s1)); [|split; assumption].
+  assert (OK2 : dead (vw s1) = false ->
+                ok_ev (vw s1) (VProbe n args (clampk k) (map (pgpub_len (vw s1) n (clampk k)) probe_centres)) = true).
+  { intro D. unfold ok_ev. rewrite D, (proj2 G1). cbn [negb andb].
+    rewrite pgpub_ok_model, andb_true_r. unfold clampk. lia. }
   split.
-  - apply emit_good; [exact G | exact OK | rewrite vstep_live; reflexivity | exact I].
-  - apply emit_ext; [exact OK | exact I].
+  - apply emit_good; [exact G1 | exact OK2 | rewrite vstep_live; reflexivity | exact I].
+  - eapply Ext_trans; [exact X1|]. apply emit_ext; [exact OK2 | exact I].
 Qed.
 
 (* ---- choosing the next listener of the snapshot *)
@@ -1306,6 +1332,18 @@ Proof.
   - (* OOwn *)
     destruct (loop_alive (vw (emit VOp s')) c); [|exact Nop].
     apply exec_act_prog; [apply invoke_spec | exact G0].
+  - (* OReg *)
+    destruct (probe_free (vw (emit VOp s')) c) eqn:PF; [|exact Nop].
+    destruct b; (apply emit_good; [exact G0 | | rewrite vstep_live; reflexivity | exact I]);
+      intro D; unfold ok_ev; rewrite D, (proj2 G0); exact PF.
+  - (* OPark *)
+    destruct (probe_free (vw (emit VOp s')) c) eqn:PF; [|exact Nop].
+    apply emit_good; [exact G0 | | rewrite vstep_live; reflexivity | exact I].
+    intro D. unfold ok_ev. rewrite D, (proj2 G0). exact PF.
+  - (* ORelease *)
+    destruct (aget c (pp (vw (emit VOp s')))) eqn:A; [|exact Nop].
+    apply emit_good; [exact G0 | | rewrite vstep_live; reflexivity | exact I].
+    intro D. unfold ok_ev. rewrite D, (proj2 G0), A. reflexivity.
 Qed.
 
 Lemma final_good g ops : Good (final g ops).
@@ -1857,6 +1895,134 @@ Proof.
   - unfold owner, loop_alive. rewrite view_of_snoc, vstep_alive, zmem_filter_out, andb_false_r. reflexivity.
 Qed.
 
+(* 9. probes: registration at the global centre by calls that may be held inside it *)
+Lemma vstep_pp w e :
+  pp (vstep w e) =
+  match e with
+  | VPark c n b => aset c (n, b) (pp w)
+  | VDone c => adel c (pp w)
+  | _ => pp w
+  end.
+Proof.
+  destruct e; cbn; try reflexivity.
+  - destruct (aget p (frames w)); reflexivity.
+  - destruct (qlen w c <? QCAP); reflexivity.
+  - apply grow_other.
+  - apply grow_other.
+Qed.
+
+Lemma vstep_pr w e :
+  pr (vstep w e) =
+  match e with
+  | VReg c n => pair_add c n (pr w)
+  | VUnreg c n => pair_del c n (pr w)
+  | VDone c => pr_after w c
+  | _ => pr w
+  end.
+Proof.
+  destruct e; cbn; try reflexivity.
+  - destruct (aget p (frames w)); reflexivity.
+  - destruct (qlen w c <? QCAP); reflexivity.
+  - apply grow_other.
+  - apply grow_other.
+Qed.
+
+Lemma pair_mem_add c n l : pair_mem c n (pair_add c n l) = true.
+Proof.
+  unfold pair_add. destruct (pair_mem c n l) eqn:M; [exact M|]. apply pair_mem_In. left. reflexivity.
+Qed.
+Lemma pair_mem_del c n l : pair_mem c n (pair_del c n l) = false.
+Proof.
+  destruct (pair_mem c n (pair_del c n l)) eqn:M; [|reflexivity]. apply pair_mem_In in M.
+  unfold pair_del in M. apply filter_In in M. destruct M as [_ M]. cbn in M. rewrite !Z.eqb_refl in M. discriminate.
+Qed.
+
+Lemma probe_free_not_held w c x : aget c (pp w) = Some x -> probe_free w c = false.
+Proof. unfold probe_free. intros ->. apply andb_false_r. Qed.
+
+(* while the call of probe c is held, nothing the other centres do changes what is held *)
+Lemma held_stays t1 c n b : forall t2,
+  Holds (t1 ++ VPark c n b :: t2) -> ~ In (VDone c) t2 ->
+  aget c (pp (view_of (t1 ++ VPark c n b :: t2))) = Some (n, b).
+Proof.
+  induction t2 as [|e t2 IH] using rev_ind; intros H N.
+  - rewrite view_of_snoc, vstep_pp. apply aget_aset_same.
+  - assert (E : t1 ++ VPark c n b :: t2 ++ [e] = (t1 ++ VPark c n b :: t2) ++ [e])
+      by (rewrite <- app_assoc; reflexivity).
+    rewrite E in *. apply Holds_snoc in H. destruct H as [H1 OK].
+    assert (N1 : ~ In (VDone c) t2) by (intro X; apply N; apply in_app_iff; auto).
+    specialize (IH H1 N1). set (w := view_of (t1 ++ VPark c n b :: t2)) in *.
+    rewrite view_of_snoc. fold w. rewrite vstep_pp.
+    unfold ok_ev in OK. destruct (dead w); [discriminate|]. cbn [negb andb] in OK.
+    destruct (lastfull w); [destruct e; try discriminate; exact IH|].
+    destruct e; try exact IH.
+    + rewrite (probe_free_not_held _ _ _ IH) in OK || idtac.
+      destruct (Z.eq_dec c0 c) as [->|Nc]; [rewrite (probe_free_not_held _ _ _ IH) in OK; discriminate|].
+      rewrite aget_aset_other by auto. exact IH.
+    + destruct (Z.eq_dec c0 c) as [->|Nc]; [exfalso; apply N; apply in_app_iff; cbn; auto|].
+      rewrite aget_adel_other by auto. exact IH.
+Qed.
+
+(* once the held call has returned the probe is registered (Subscribe) / not registered
+   (Unsubscribe) - the sequential outcome - whatever happened while it was held *)
+Theorem held_call_outcome t t1 c n b t2 t3 :
+  Holds t -> t = t1 ++ VPark c n b :: t2 ++ VDone c :: t3 -> ~ In (VDone c) t2 ->
+  pair_mem c n (pr (view_of (t1 ++ VPark c n b :: t2 ++ [VDone c]))) = b /\
+  aget c (pp (view_of (t1 ++ VPark c n b :: t2 ++ [VDone c]))) = None.
+Proof.
+  intros H E N.
+  assert (E2 : t = (t1 ++ VPark c n b :: t2) ++ VDone c :: t3) by (rewrite E, <- app_assoc; reflexivity).
+  destruct (Holds_at _ _ _ _ H E2) as (Hp & _ & _).
+  pose proof (held_stays t1 c n b t2 Hp N) as Hd.
+  assert (E3 : t1 ++ VPark c n b :: t2 ++ [VDone c] = (t1 ++ VPark c n b :: t2) ++ [VDone c])
+    by (rewrite <- app_assoc; reflexivity).
+  rewrite E3, view_of_snoc, vstep_pr, vstep_pp. split; [|apply aget_adel_same].
+  unfold pr_after. rewrite Hd. destruct b; [apply pair_mem_add | apply pair_mem_del].
+Qed.
+
+Lemma pgpub_ok_nth w n k : forall cs qs,
+  pgpub_ok w n k cs qs = true ->
+  length qs = length cs /\
+  forall i c q, nth_error cs i = Some c -> nth_error qs i = Some q -> held w c n = false ->
+    q = if pair_mem c n (pr w) then Z.min QCAP (qlen w c + k) else qlen w c.
+Proof.
+  induction cs as [|c0 cr IH]; intros [|q0 qr] H; cbn [pgpub_ok] in H; try discriminate.
+  - split; [reflexivity|]. intros [|i]; discriminate.
+  - apply andb_true_iff in H. destruct H as [H0 H1]. destruct (IH qr H1) as [L R].
+    split; [cbn; congruence|]. intros [|i] c q Hc Hq Hh; cbn in Hc, Hq; [|eauto].
+    inv Hc. inv Hq. rewrite Hh in H0. destruct (pair_mem c n (pr w)); lia.
+Qed.
+
+(* a global publication reaches every registered probe whose registration is not in flight
+   (exactly the copies that fit), and no unregistered one *)
+Theorem probe_delivery t pre n a k qlens post :
+  Holds t -> t = pre ++ VProbe n a k qlens :: post ->
+  forall c, In c probe_centres -> held (view_of pre) c n = false ->
+    queue_of (view_of (pre ++ [VProbe n a k qlens])) c =
+    queue_of (view_of pre) c ++
+    repeat (n, a) (Z.to_nat (if pair_mem c n (pr (view_of pre))
+                             then Z.min QCAP (qlen (view_of pre) c + k) - qlen (view_of pre) c else 0)).
+Proof.
+  intros H E c Hc Hh. destruct (Holds_at _ _ _ _ H E) as (_ & OK & _).
+  set (w := view_of pre) in *. unfold ok_ev in OK. destruct (dead w); [discriminate|].
+  destruct (lastfull w); [discriminate|]. cbn [negb andb] in OK.
+  apply andb_true_iff in OK. destruct OK as [K OK].
+  destruct (pgpub_ok_nth _ _ _ _ _ OK) as [Len Nth].
+  apply In_nth_error in Hc. destruct Hc as [i Hi].
+  assert (Hq : exists q, nth_error qlens i = Some q).
+  { destruct (nth_error qlens i) eqn:Q; [eauto|]. apply nth_error_None in Q.
+    assert (i < length probe_centres)%nat by (apply nth_error_Some; congruence). lia. }
+  destruct Hq as [q Hq]. pose proof (Nth i c q Hi Hq Hh) as Eq.
+  assert (ND : NoDup probe_centres) by (repeat constructor; cbn; intuition discriminate).
+  assert (Q : queue_of (view_of (pre ++ [VProbe n a k qlens])) c =
+              queue_of w c ++ repeat_ev (n, a) (q - qlen w c)).
+  { rewrite view_of_snoc. fold w. unfold vstep. cbn [vstep0].
+    change (queue_of (set_lastfull ?x ?b) c) with (queue_of x c).
+    eapply grow_in; eauto. }
+  rewrite Q, Eq. unfold repeat_ev. destruct (pair_mem c n (pr w)); [reflexivity|].
+  rewrite Z.sub_diag. reflexivity.
+Qed.
+
 (* ================================================================ Part D: the statements of Props.v *)
 Lemma m_not_starved : forall g ops pre n a k qlens post,
   run g ops = pre ++ VGPub n a k qlens :: post ->
@@ -2008,3 +2174,19 @@ Lemma m_loop_end : forall g ops pre c post,
   In (VStop c) pre /\ loop_alive (view_of pre) c = true /\
   queue_of (view_of (pre ++ [VLoopEnd c])) c = [] /\ owner (view_of (pre ++ [VLoopEnd c])) c = 0.
 Proof. intros. eapply loop_end_after_stop; eauto using run_holds. Qed.
+
+(* ---- probes *)
+Lemma m_held_call : forall g ops t1 c n b t2 t3,
+  run g ops = t1 ++ VPark c n b :: t2 ++ VDone c :: t3 -> ~ In (VDone c) t2 ->
+  pair_mem c n (pr (view_of (t1 ++ VPark c n b :: t2 ++ [VDone c]))) = b /\
+  aget c (pp (view_of (t1 ++ VPark c n b :: t2 ++ [VDone c]))) = None.
+Proof. intros. eapply held_call_outcome; eauto using run_holds. Qed.
+
+Lemma m_probe : forall g ops pre n a k qlens post,
+  run g ops = pre ++ VProbe n a k qlens :: post ->
+  forall c, In c probe_centres -> held (view_of pre) c n = false ->
+    queue_of (view_of (pre ++ [VProbe n a k qlens])) c =
+    queue_of (view_of pre) c ++
+    repeat (n, a) (Z.to_nat (if pair_mem c n (pr (view_of pre))
+                             then Z.min QCAP (qlen (view_of pre) c + k) - qlen (view_of pre) c else 0)).
+Proof. intros. eapply probe_delivery; eauto using run_holds. Qed.
